@@ -11,7 +11,7 @@ use flsrc::search::Searcher;
 use refchess::{Color, Kind, Mv, Pos};
 use serde_json::{json, Value};
 
-pub const RULE: &str = "two families, preconditions constructed and verified with the reference: (M) positions where the mover has >=1 mating move (heavy-piece vs exposed-king constructions, retractions of one move from generated checkmates, perturbed mate shapes incl. back-rank/smothered/pawn/promotion mates, plus whatever the general mixture contains), searched with find_best_move on a fresh Searcher at depth 1..4: the returned move must be in Mates(p) = legal moves after which the opponent is in check with no legal move; Part 'grid-mates' (enumerated; quick tier: a seed-dependent stratified share, thorough: all): items of the check-geometry grid with one of their checking moves turned into a mate by boxing the checked king in with men of its own side (kept only when the reference confirms the mate): mates by en-passant capture (direct and through the captured pawn's square), castling, promotion and under-promotion, discovery by every kind of blocker, and every single man, searched at depth 1..3. (D) positions where some legal moves allow a mate in one and at least one does not, searched at depth 2..3: the returned move must not be in Allows(p) = { m : Mates(p·m) != {} }. Positions whose search exceeds the node watchdog are excluded and counted. Non-trivial: (M) >=2 legal moves and >=1 non-mating move; (D) >=3 legal moves (both classes non-empty by construction); distinct by (FEN, depth).";
+pub const RULE: &str = "two families, preconditions constructed and verified with the reference: (M) positions where the mover has >=1 mating move (heavy-piece vs exposed-king constructions, retractions of one move from generated checkmates, perturbed mate shapes incl. back-rank/smothered/pawn/promotion mates, plus whatever the general mixture contains), searched with find_best_move on a fresh Searcher at depth 1..4: the returned move must be in Mates(p) = legal moves after which the opponent is in check with no legal move; Part 'grid-mates' (enumerated; quick tier: a seed-dependent stratified share, thorough: all): items of the check-geometry grid with one of their checking moves turned into a mate by boxing the checked king in with men of its own side (kept only when the reference confirms the mate): mates by en-passant capture (direct and through the captured pawn's square), castling, promotion and under-promotion, discovery by every kind of blocker, and every single man, searched at depth 1..3. Part 'corner-mates' (enumerated; quick tier a seed-dependent twelfth): the defending king in a corner with at most one man of its own next to it, the attacking king two or three squares away, one or two attacking minor pieces — every such position with a mate in one (family M) or, defender to move, with a mix of moves that do and do not allow one (family D): the material without pawns, rooks and queens. (D) positions where some legal moves allow a mate in one and at least one does not, searched at depth 2..3: the returned move must not be in Allows(p) = { m : Mates(p·m) != {} }. Positions whose search exceeds the node watchdog are excluded and counted. Non-trivial: (M) >=2 legal moves and >=1 non-mating move; (D) >=3 legal moves (both classes non-empty by construction); distinct by (FEN, depth).";
 
 pub fn mates(p: &Pos) -> Vec<Mv> {
     p.legal_moves().into_iter().filter(|m| p.make(*m).is_mate()).collect()
@@ -389,6 +389,90 @@ fn judge_grid(it: &crate::grid::GridItem, stats: &mut Stats) -> Verdict {
     Ok(())
 }
 
+/// Enumerated 'minor-piece corner mates': the defending king in a corner, possibly with one man of
+/// its own next to it (N, B or P: the self-block that makes a mate by minor pieces possible), the
+/// attacking king two or three squares away, one attacking minor anywhere and possibly a second one
+/// nearby.  Every such position with the attacker to move and a mate in one is judged as family M;
+/// with the defender to move (single attacking minor), every position in which some moves allow a
+/// mate in one and some do not, as family D.  This is the material where no pawn, rook or queen is
+/// on the board.
+fn corner_mate_positions() -> Vec<(Pos, bool)> {
+    let mut out = Vec::new();
+    let dist = |a: u8, b: u8| ((a % 8) as i32 - (b % 8) as i32).abs().max(((a / 8) as i32 - (b / 8) as i32).abs());
+    for bk in [0u8, 7, 56, 63] {
+        let adj: Vec<u8> = (0..64u8).filter(|s| dist(*s, bk) == 1).collect();
+        let near: Vec<u8> = (0..64u8).filter(|s| dist(*s, bk) >= 2 && dist(*s, bk) <= 3).collect();
+        let mut blockers: Vec<Option<(u8, Kind)>> = vec![None];
+        for a in &adj {
+            for k in [Kind::N, Kind::B, Kind::P] {
+                if k == Kind::P && (*a < 8 || *a >= 56) {
+                    continue;
+                }
+                blockers.push(Some((*a, k)));
+            }
+        }
+        for blk in &blockers {
+            for ak in &near {
+                for k1 in [Kind::N, Kind::B] {
+                    for s1 in 0..64u8 {
+                        let mut base = Pos::empty();
+                        base.sq[bk as usize] = Some((Color::B, Kind::K));
+                        base.sq[*ak as usize] = Some((Color::W, Kind::K));
+                        if let Some((a, k)) = blk {
+                            if base.sq[*a as usize].is_some() {
+                                continue;
+                            }
+                            base.sq[*a as usize] = Some((Color::B, *k));
+                        }
+                        if base.sq[s1 as usize].is_some() {
+                            continue;
+                        }
+                        base.sq[s1 as usize] = Some((Color::W, k1));
+                        // attacker to move
+                        let mut p = base.clone();
+                        p.stm = Color::W;
+                        if p.is_valid() && !mates(&p).is_empty() {
+                            out.push((p, true));
+                        }
+                        // defender to move: a mix of moves that do and do not allow a mate in one
+                        let mut d = base.clone();
+                        d.stm = Color::B;
+                        if d.is_valid() {
+                            let legal = d.legal_moves();
+                            if legal.len() >= 2 {
+                                let al = allows(&d);
+                                if !al.is_empty() && al.len() < legal.len() {
+                                    out.push((d, false));
+                                }
+                            }
+                        }
+                        // a second attacking minor nearby
+                        for k2 in [Kind::N, Kind::B] {
+                            for s2 in &near {
+                                if base.sq[*s2 as usize].is_some() {
+                                    continue;
+                                }
+                                let mut q = base.clone();
+                                q.sq[*s2 as usize] = Some((Color::W, k2));
+                                q.stm = Color::W;
+                                if q.is_valid() && !mates(&q).is_empty() {
+                                    out.push((q, true));
+                                }
+                            }
+                        }
+                    }
+                }
+            }
+        }
+    }
+    // both colours as the attacker
+    let mirrored: Vec<(Pos, bool)> = out.iter().map(|(p, m)| (p.mirror(), *m)).collect();
+    out.extend(mirrored);
+    out.sort_by(|a, b| a.0.fen4().cmp(&b.0.fen4()));
+    out.dedup_by(|a, b| a.0 == b.0);
+    out
+}
+
 pub fn run(tier: Tier, seed: u64, known: &Known) -> PropRun {
     let mut run = PropRun::new("exploration", RULE);
     run.assumptions = vec![
@@ -414,6 +498,28 @@ pub fn run(tier: Tier, seed: u64, known: &Known) -> PropRun {
     if fail.is_some() {
         run.failure = fail;
         return run;
+    }
+    {
+        let all = corner_mate_positions();
+        run.stats.class_n("corner_mate_positions_enumerated", all.len() as u64);
+        let share: u64 = tier.pick(12, 1);
+        let items: Vec<(Pos, bool)> = all.into_iter().filter(|it| (crate::stats::hash_of(&it.0.fen4()) ^ seed) % share == 0).collect();
+        let (st, fail) = crate::runner::run_enumerated("corner-mates", &items, threads(), seed, known, |it, st| {
+            eng::set_counter_wish(0, 1);
+            let h = crate::stats::hash_of(&it.0.fen4());
+            if it.1 {
+                st.class("K_minor_corner_mate_in_one");
+                judge_m(&it.0, 1 + (h % 4) as u8, "corner-minor", st)
+            } else {
+                st.class("K_minor_corner_avoidable_mate_in_one");
+                judge_d(&it.0, 2 + (h % 2) as u8, "corner-minor", st)
+            }
+        });
+        run.stats.merge(st);
+        if fail.is_some() {
+            run.failure = fail;
+            return run;
+        }
     }
     for (name, cases, max_len, f) in parts {
         let part = Part { name, cases, min_len: 16, max_len, max_shrink: 300, threads: threads() };
